@@ -583,7 +583,7 @@ func specRLIssuerOK(i RateLimitedIssuer) bool {
 // response. Nothing that existed before the call is written (C16, C17).
 //
 //@ func (i RateLimitedIssuer) Evaluate(encodedRequest []byte) (resp []byte, blindedKey []byte, err error)
-//@ props C03 C07 C16 C17
+//@ props C03 C07 C16 C17 C20
 //@ requires specRLIssuerOK(i)
 //@ let n = int(encodedRequest[83])*256 + int(encodedRequest[84])
 //@ let rk = string(encodedRequest[2:51])
@@ -597,7 +597,7 @@ func specRLIssuerOK(i RateLimitedIssuer) bool {
 //@ ensures[C07] err == nil ==> n >= npk
 //@ ensures[C07] err == nil ==> HPKEOpenOK(ctx, 0, aad, enc[npk:])
 //@ ensures[C07] err == nil ==> specInnerOK(pt)
-//@ ensures[C07] err == nil ==> MapHas(i.originIndexKeys, SpecUnpad(specInnerOrigin(pt)))
+//@ ensures[C07 C20] err == nil ==> MapHas(i.originIndexKeys, SpecUnpad(specInnerOrigin(pt)))
 //@ ensures[C07] err == nil ==> specSigOK(rk, nk, enc, encodedRequest[85+n:85+n+96])
 //@ ensures err != nil ==> resp == nil && blindedKey == nil
 //@ ensures err == nil ==> fresh(resp) && fresh(blindedKey)
